@@ -1664,12 +1664,18 @@ def fault_sequences_stage(ctx, only=None):
     ctx.extra["fault_sequences"] = ctx.extra.get("fault_sequences", 0) + len(seqs)
 
 
-def run(ctx):
-    try:
-        fault_sequences_stage(ctx)
-        cases = corpus_cases() + exhaustive_cases()
+def stages(ctx):
+    """The stages of the check, each under the wall-clock backstop of C08_world.run_stages: the per-case bounds of this check
+    are PROGRESS based (loop spins), so a tree that blocks the calling thread inside one loop iteration (a `Future.result()`
+    on the loop's thread, a lock) would otherwise hold the check until the framework's time-out. Such a stage yields
+    `c17:never-completes:stage:<name>` and the check finishes."""
+    cases = corpus_cases() + exhaustive_cases()
+
+    def exhaustive():
         ctx.extra["exhaustive_block_cases"] = len(cases)
         check_cases(ctx, cases)
+
+    def random_cases():
         n = ctx.n(600, 8000)
         batch = []
         for i in range(n):
@@ -1684,6 +1690,16 @@ def run(ctx):
             check_cases(ctx, batch)
         c = cases[5]
         ctx.sample({"document": documents(c)[0], "events": c["events"], "results": run_real(c)["results"]})
+
+    return [("fault-sequences", lambda: fault_sequences_stage(ctx)),
+            ("exhaustive", exhaustive),
+            ("random", random_cases)]
+
+
+def run(ctx, replaying=None):
+    from corr import C08_world as W08
+    try:
+        W08.run_stages(ctx, "C17", stages(ctx), replaying=replaying)
     finally:
         _cleanup(ctx)
 
@@ -1694,6 +1710,10 @@ def _cleanup(ctx):
 
 
 def replay(ctx, data):
+    if data.get("input", {}).get("probe") == "stage":
+        before = len(ctx.found)
+        run(ctx, replaying=data["input"].get("stage"))
+        return len(ctx.found) == before
     if data.get("input", {}).get("probe") == "fault-sequences":
         before = len(ctx.found)
         fault_sequences_stage(ctx, only=data["input"].get("only"))
